@@ -108,4 +108,12 @@ TEXT = {
                  "construction. Found the NaN interface for axis -z and the out-of-bounds read on coincident interface points (both fixed). Exploration.",
         "note": "Trusted: the harness oracle; forced axes use the repository's own virtual get_cell_division_axis().",
     },
+    "C13": {
+        "technique": "rapidcheck property-based testing through the real start-up path (file -> reader -> reconstruction -> integrity check) with an independent topology + exact-polyhedron oracle; brute-force spacing oracle; direct driving of the hole-filling stage",
+        "level": "Every generated polyhedron either yields a cell that the independent oracle accepts (closed, outward, volume / bounding box / "
+                 "node distance within the stated resolution-dependent tolerance of the exact input) or an exception; the Poisson cloud is "
+                 "checked pair by pair. Found: inward-wound inputs returned a degenerate 4-triangle cell, samples one ulp outside the "
+                 "bounding box wrapped the voxel index, hole filling iterated over a growing vector (all fixed). Exploration.",
+        "note": "Trusted: polygen.hpp (exact input surface), geom.hpp. Liveness = returned within the per-case watchdog.",
+    },
 }
